@@ -40,16 +40,140 @@ func stdImporter() types.Importer {
 }
 
 type typeDecls struct {
-	rs      *Resid
-	byVal   map[*VOpaque]string // opaque type value -> declared name
-	decls   []string
-	fresh   int
-	pending map[*VOpaque]bool
+	rs        *Resid
+	byVal     map[*VOpaque]string // opaque type value -> declared name
+	decls     []string
+	fresh     int
+	nameID    map[string]string     // NAME hole origin -> placeholder identifier
+	parent    map[*VOpaque]*VOpaque // union-find: types the run established to be identical
+	byOrigin  map[string]*VOpaque
+	skip      string // non-empty: the run's type graph cannot be declared faithfully (reason)
+	useUnsafe bool
 }
 
 func (td *typeDecls) freshName() string {
 	td.fresh++
 	return fmt.Sprintf("__X%d", td.fresh)
+}
+
+func (td *typeDecls) find(o *VOpaque) *VOpaque {
+	for {
+		p, ok := td.parent[o]
+		if !ok || p == o {
+			return o
+		}
+		o = p
+	}
+}
+
+// index collects every opaque type value reachable from the run's holes, requests and registrations.
+func (td *typeDecls) index() {
+	td.byOrigin = map[string]*VOpaque{}
+	td.parent = map[*VOpaque]*VOpaque{}
+	td.nameID = map[string]string{}
+	seen := map[*VOpaque]bool{}
+	var walk func(v Value, depth int)
+	walk = func(v Value, depth int) {
+		switch x := v.(type) {
+		case *VOpaque:
+			if x == nil || seen[x] || depth > 12 {
+				return
+			}
+			seen[x] = true
+			if _, dup := td.byOrigin[x.Origin]; !dup {
+				td.byOrigin[x.Origin] = x
+			}
+			for _, a := range x.attrs {
+				walk(a, depth+1)
+			}
+		case *VList:
+			for _, e := range x.Elems {
+				walk(e, depth+1)
+			}
+		case VStr:
+			for _, p := range x.Parts {
+				if p.Hole != nil {
+					walk(p.Hole.Val, depth+1)
+				}
+			}
+		}
+	}
+	for _, h := range td.rs.Run.Holes {
+		walk(h.Val, 0)
+		for _, a := range h.Args {
+			walk(a, 0)
+		}
+		if h.Kind == "NAME" {
+			td.nameID[h.Origin] = h.ID
+		}
+	}
+	for _, v := range td.rs.Run.Registered {
+		walk(v, 0)
+	}
+	// identities established on this path
+	for _, d := range td.rs.Run.Decisions {
+		if !strings.HasPrefix(d.Sym, "B:types.Identical(") || d.Choice != 0 {
+			continue
+		}
+		args := splitTop(strings.TrimSuffix(strings.TrimPrefix(d.Sym, "B:types.Identical("), ")"))
+		if len(args) != 2 {
+			continue
+		}
+		for _, pair := range td.matchOrigins(args[0], args[1]) {
+			a, b := td.find(pair[0]), td.find(pair[1])
+			if a != b {
+				td.parent[b] = a
+			}
+		}
+	}
+}
+
+// matchOrigins resolves two origin strings (possibly in tied `[*]` form) to pairs of opaque values.
+func (td *typeDecls) matchOrigins(a, b string) [][2]*VOpaque {
+	var out [][2]*VOpaque
+	if x, ok := td.byOrigin[a]; ok {
+		if y, ok := td.byOrigin[b]; ok {
+			return [][2]*VOpaque{{x, y}}
+		}
+	}
+	if strings.Contains(a, "[*]") || strings.Contains(b, "[*]") {
+		var xs, ys []*VOpaque
+		for o, v := range td.byOrigin {
+			t := tieRe.ReplaceAllString(o, "[*]")
+			if t == a {
+				xs = append(xs, v)
+			}
+			if t == b {
+				ys = append(ys, v)
+			}
+		}
+		for _, x := range xs {
+			for _, y := range ys {
+				out = append(out, [2]*VOpaque{x, y})
+			}
+		}
+	}
+	return out
+}
+
+// splitTop splits at commas outside parentheses / brackets / ‹› quotes.
+func splitTop(s string) []string {
+	var out []string
+	depth, start := 0, 0
+	for i, r := range s {
+		switch r {
+		case '(', '[', '\u2039':
+			depth++
+		case ')', ']', '\u203a':
+			depth--
+		case ',':
+			if depth == 0 {
+				out = append(out, s[start:i])
+				start = i + 1
+			}
+		}
+	}
+	return append(out, s[start:])
 }
 
 // nameFor returns a type expression for an opaque type value, declaring it on first use.
@@ -58,8 +182,23 @@ func (td *typeDecls) nameFor(v Value, depth int) string {
 	if !ok || o == nil {
 		return "interface{}"
 	}
+	if td.parent != nil {
+		o = td.find(o)
+	}
 	if n, ok := td.byVal[o]; ok {
 		return n
+	}
+	// a type built by the generator itself (types.NewPointer(T), NewSlice(T), …) is the literal composite type
+	if o.built {
+		sub := func(attr string) string { return td.nameFor(o.attrs[attr], depth+1) }
+		switch o.Kind {
+		case "*types.Pointer":
+			return "*" + sub("Elem")
+		case "*types.Slice":
+			return "[]" + sub("Elem")
+		case "*types.Map":
+			return "map[" + sub("Key") + "]" + sub("Elem")
+		}
 	}
 	name := td.freshName()
 	td.byVal[o] = name
@@ -67,14 +206,74 @@ func (td *typeDecls) nameFor(v Value, depth int) string {
 	return name
 }
 
+var goBasic = map[string]string{
+	"types.Bool": "bool", "types.UntypedBool": "bool", "types.Int": "int", "types.Int8": "int8", "types.Int16": "int16", "types.Int32": "int32",
+	"types.Int64": "int64", "types.Uint": "uint", "types.Uint8": "uint8", "types.Uint16": "uint16", "types.Uint32": "uint32", "types.Uint64": "uint64",
+	"types.Uintptr": "uintptr", "types.Float32": "float32", "types.Float64": "float64", "types.Complex64": "complex64", "types.Complex128": "complex128",
+	"types.String": "string", "types.UnsafePointer": "unsafe.Pointer", "types.UntypedInt": "int", "types.UntypedRune": "rune", "types.UntypedFloat": "float64",
+	"types.UntypedComplex": "complex128", "types.UntypedString": "string", "types.Byte": "byte", "types.Rune": "rune",
+}
+
+// basicName: the Go basic type an opaque Basic was refined to on this path ("" = not refined).
+func (td *typeDecls) basicName(u *VOpaque) string {
+	if u == nil {
+		return ""
+	}
+	run := td.rs.Run
+	pre := "S:" + u.Origin + ".Kind()#"
+	preT := tieRe.ReplaceAllString(pre, "[*]")
+	for _, d := range run.Decisions {
+		if (strings.HasPrefix(d.Sym, pre) || strings.HasPrefix(d.Sym, preT)) && d.Choice < len(d.Cands)-1 {
+			if g, ok := goBasic[d.Cands[d.Choice]]; ok {
+				return g
+			}
+			return "?" + d.Cands[d.Choice]
+		}
+	}
+	// if-form: B:<origin>.Kind()==<n> answered true
+	eq := "B:" + u.Origin + ".Kind()=="
+	eqT := tieRe.ReplaceAllString(eq, "[*]")
+	for _, d := range run.Decisions {
+		for _, p := range []string{eq, eqT} {
+			if strings.HasPrefix(d.Sym, p) && d.Choice == 0 {
+				n := 0
+				if _, err := fmt.Sscanf(strings.TrimPrefix(d.Sym, p), "%d", &n); err == nil && n > 0 && n < len(types.Typ) {
+					nm := types.Typ[n].Name()
+					if strings.HasPrefix(nm, "untyped ") {
+						return goBasic["types.Untyped"+strings.Title(strings.TrimPrefix(nm, "untyped "))]
+					}
+					if nm == "Pointer" {
+						return "unsafe.Pointer"
+					}
+					return nm
+				}
+			}
+		}
+	}
+	return ""
+}
+
+func (td *typeDecls) predTrue(pred string, o *VOpaque) bool {
+	for _, c := range []*VOpaque{o, underlyingVal(o)} {
+		if c == nil {
+			continue
+		}
+		if ans, asked := td.rs.Run.predTrue(pred, c); asked && ans {
+			return true
+		}
+	}
+	return false
+}
+
 func (td *typeDecls) declare(name string, o *VOpaque, depth int) {
+	run := td.rs.Run
 	u := underlyingVal(o)
 	kind := ""
 	if u != nil {
 		kind = u.Kind
 	}
 	sub := func(attr string) string {
-		if u == nil || depth > 4 {
+		if u == nil || depth > 6 {
 			return "struct{}"
 		}
 		if a, ok := u.attrs[attr]; ok {
@@ -108,15 +307,47 @@ func (td *typeDecls) declare(name string, o *VOpaque, depth int) {
 		}
 		return strings.Join(ss, ", ")
 	}
+	methodsOK := true // can this declared type carry methods?
+	// a type the run established NOT to be a defined type (identical to its own Underlying(), or a failed *types.Named
+	// assertion) is declared as an alias of the literal type; otherwise as a defined type
+	alias := false
+	if u != nil && u != o && td.find(u) == td.find(o) {
+		alias = true
+	}
+	if d, ok := run.decision("A:" + o.Origin + ":*types.Named"); ok && d.Choice == 1 {
+		alias = true
+	}
+	if strings.HasSuffix(o.Origin, ".Underlying()") {
+		alias = true // the result of Underlying() is never a defined type
+	}
+	// a successful assertion of the type itself (not its Underlying()) to a literal kind: it is that literal type
+	for _, k := range []string{"Basic", "Pointer", "Slice", "Array", "Map", "Struct", "Signature", "Chan", "Interface"} {
+		if d, ok := run.decision("A:" + o.Origin + ":*types." + k); ok && d.Choice == 0 {
+			alias = true
+		}
+	}
+	emit := func(lit string) {
+		if alias {
+			methodsOK = false
+			td.decls = append(td.decls, fmt.Sprintf("type %s = %s", name, lit))
+		} else {
+			td.decls = append(td.decls, fmt.Sprintf("type %s %s", name, lit))
+		}
+	}
 	switch kind {
 	case "*types.Pointer":
-		td.decls = append(td.decls, fmt.Sprintf("type %s *%s", name, sub("Elem")))
+		emit("*" + sub("Elem"))
+		methodsOK = false
 	case "*types.Slice":
-		td.decls = append(td.decls, fmt.Sprintf("type %s []%s", name, sub("Elem")))
+		emit("[]" + sub("Elem"))
 	case "*types.Array":
-		td.decls = append(td.decls, fmt.Sprintf("type %s [3]%s", name, sub("Elem")))
+		emit("[3]" + sub("Elem"))
 	case "*types.Map":
-		td.decls = append(td.decls, fmt.Sprintf("type %s map[%s]%s", name, "string", sub("Elem")))
+		key := "string"
+		if _, ok := u.attrs["Key"]; ok {
+			key = sub("Key")
+		}
+		emit(fmt.Sprintf("map[%s]%s", key, sub("Elem")))
 	case "*types.Chan":
 		dir := "chan "
 		if d, ok := u.attrs["Dir"].(VInt); ok && d.Known {
@@ -127,19 +358,108 @@ func (td *typeDecls) declare(name string, o *VOpaque, depth int) {
 				dir = "<-chan "
 			}
 		}
-		td.decls = append(td.decls, fmt.Sprintf("type %s %s%s", name, dir, sub("Elem")))
+		emit(dir + sub("Elem"))
 	case "*types.Signature":
 		res := tuple("Results", false)
 		if strings.Contains(res, ",") {
 			res = "(" + res + ")"
 		}
-		td.decls = append(td.decls, fmt.Sprintf("type %s func(%s) %s", name, tuple("Params", false), res))
+		emit(fmt.Sprintf("func(%s) %s", tuple("Params", false), res))
 	case "*types.Basic":
-		td.decls = append(td.decls, fmt.Sprintf("type %s int", name))
+		b := td.basicName(u)
+		switch {
+		case b == "":
+			b = "int"
+		case strings.HasPrefix(b, "?"):
+			td.skip = "basic kind " + b[1:] + " has no Go spelling"
+			b = "int"
+		case b == "unsafe.Pointer":
+			td.useUnsafe = true
+		}
+		emit(b)
+	case "*types.Struct":
+		var fs []string
+		if el, ok := u.attrs["#elems"].(*VList); ok {
+			for i, e := range el.Elems {
+				eo, _ := e.(*VOpaque)
+				fname := fmt.Sprintf("F%d_%s", i, strings.TrimLeft(name, "_"))
+				ftype := "struct{}"
+				if eo != nil {
+					if id, ok := td.nameID[eo.Origin+".Name()"]; ok {
+						fname = id
+					}
+					if nm, ok := eo.attrs["Name"].(VStr); ok {
+						if l, isLit := nm.isLit(); isLit && l == "_" {
+							fname = "_"
+						}
+					}
+					if tv, ok := eo.attrs["Type"]; ok {
+						ftype = td.nameFor(tv, depth+1)
+					} else {
+						ftype = td.nameFor(&VOpaque{Origin: eo.Origin + ".Type()"}, depth+1)
+					}
+				}
+				fs = append(fs, fname+" "+ftype)
+			}
+		}
+		emit(fmt.Sprintf("struct{ %s }", strings.Join(fs, "; ")))
+	case "*types.Interface":
+		emit(fmt.Sprintf("interface{ M%s() }", strings.TrimLeft(name, "_")))
+		methodsOK = false
 	default:
-		td.decls = append(td.decls, fmt.Sprintf("type %s struct{ _%s int }", name, strings.TrimLeft(name, "_")))
+		// kind never examined: the generator treats the type parametrically. Property predicates answered by the oracle
+		// still constrain it.
+		switch {
+		case td.predTrue("IsError", o):
+			td.decls = append(td.decls, fmt.Sprintf("type %s = error", name))
+			methodsOK = false
+		case td.predTrue("isOrdered", o):
+			emit("int")
+		case td.predTrue("nullable", o):
+			emit(fmt.Sprintf("*struct{ _%s int }", strings.TrimLeft(name, "_")))
+			methodsOK = false
+		default:
+			emit(fmt.Sprintf("struct{ _%s int }", strings.TrimLeft(name, "_")))
+		}
+	}
+	// methods the run's predicates found on this (named) type
+	type mp struct{ pred, meth, res string }
+	for _, m := range []mp{{"equalMethodInputParam", "Equal", "bool"}, {"compareMethodInputParam", "Compare", "int"}} {
+		d, ok := run.decision("B:pred:" + m.pred + "(" + o.Origin + ",)!=nil")
+		if !ok || d.Choice != 0 {
+			continue
+		}
+		if !methodsOK {
+			td.skip = "a " + m.meth + " method on a pointer- or interface-kinded named type (not expressible in Go)"
+			continue
+		}
+		param := name
+		if d2, ok := run.decision("A:*pred:" + m.pred + "(" + o.Origin + ",):*types.Pointer"); ok && d2.Choice == 0 {
+			param = "*" + name
+		} else if d3, ok := run.decision("A:*pred:" + m.pred + "(" + o.Origin + ",):*types.Interface"); ok && d3.Choice == 0 {
+			param = "interface{}"
+		}
+		td.decls = append(td.decls, fmt.Sprintf("func (x *%s) %s(y %s) %s { panic(0) }", name, m.meth, param, m.res))
+	}
+	if ans, asked := run.predTrue("hasHashMethod", o); asked && ans {
+		if !methodsOK {
+			td.skip = "a Hash method on a pointer- or interface-kinded named type"
+		} else {
+			td.decls = append(td.decls, fmt.Sprintf("func (x *%s) Hash() %s { panic(0) }", name, hashMethodResult))
+		}
+	}
+	if ans, asked := run.predTrue("hasDeepCopyMethod", o); asked && ans {
+		if !methodsOK {
+			td.skip = "a DeepCopy method on a pointer- or interface-kinded named type"
+		} else {
+			td.decls = append(td.decls, fmt.Sprintf("func (x *%s) DeepCopy(to *%s) { panic(0) }", name, name))
+		}
 	}
 }
+
+// hashMethodResult: the result type of the Hash method that hash.hasHashMethod accepts, from the tabulation of that
+// predicate (g9Methods); set by the checks that type residuals of the hash plugin.
+var hashMethodResult = "uint64"
 
 // typecheckResid type-checks a residual; sigs gives the signature text for FUNC holes (by hole), or "" to skip the residual.
 func typecheckResid(rs *Resid, funcSig func(h *Hole, td *typeDecls) string) ([]string, bool) {
@@ -151,7 +471,11 @@ func typecheckResidSrc(rs *Resid, funcSig func(h *Hole, td *typeDecls) string) (
 	if rs.Err != nil {
 		return nil, false, ""
 	}
+	if rs.Run.RecCut || strings.Contains(rs.Run.Text, "__RECURSE_") {
+		return nil, false, ""
+	}
 	td := &typeDecls{rs: rs, byVal: map[*VOpaque]string{}}
+	td.index()
 	// TYPE holes first so that they keep their placeholder names
 	var ids []string
 	for id := range rs.Run.Holes {
@@ -162,6 +486,7 @@ func typecheckResidSrc(rs *Resid, funcSig func(h *Hole, td *typeDecls) string) (
 		h := rs.Run.Holes[id]
 		if h.Kind == "TYPE" {
 			if o, ok := h.Val.(*VOpaque); ok {
+				o = td.find(o)
 				if _, dup := td.byVal[o]; !dup {
 					td.byVal[o] = id
 				} else {
@@ -180,6 +505,7 @@ func typecheckResidSrc(rs *Resid, funcSig func(h *Hole, td *typeDecls) string) (
 			td.decls = append(td.decls, fmt.Sprintf("type %s struct{ _%s int }", id, strings.TrimLeft(id, "_")))
 			continue
 		}
+		o = td.find(o)
 		if td.byVal[o] == id {
 			td.declare(id, o, 0)
 		}
@@ -209,6 +535,12 @@ func typecheckResidSrc(rs *Resid, funcSig func(h *Hole, td *typeDecls) string) (
 		case "EXPR", "OPAQUE":
 			return nil, false, ""
 		}
+	}
+	if td.skip != "" {
+		return nil, false, ""
+	}
+	if td.useUnsafe {
+		imports = append(imports, `import "unsafe"`)
 	}
 	src := strings.Replace(rs.Run.Text, "package p\n", "package p\n"+strings.Join(imports, "\n")+"\n", 1) + "\n" + strings.Join(td.decls, "\n") + "\n"
 	fset := token.NewFileSet()
